@@ -72,6 +72,9 @@ pub struct Scenario {
     pub seed: u64,
     pub server_timeout: Option<Duration>,
     pub endpoint_timeout: Option<Duration>,
+    /// `Server::max_connection_age`: connections older than this are told to go away while their
+    /// calls finish; must change nothing about what shutdown promises
+    pub max_connection_age: Option<Duration>,
 }
 
 pub struct ScenarioOut {
@@ -106,6 +109,9 @@ pub fn run_scenario(sc: &Scenario) -> ScenarioOut {
         }
         if let Some(t) = sc.server_timeout {
             sb = sb.timeout(t);
+        }
+        if let Some(a) = sc.max_connection_age {
+            sb = sb.max_connection_age(a);
         }
         let router = sb.add_service(VerifServer::new(h.clone()));
         let slog = log.clone();
@@ -363,12 +369,16 @@ pub fn gen_scenario(rng: &mut Rng, with_signal: bool) -> Scenario {
         seed: rng.u64(),
         server_timeout,
         endpoint_timeout: None,
+        // only with default windows: an aged-out connection is replaced by a lazily established one,
+        // and lazily established connections to a server with a lowered window run into the h2
+        // stall described in DESIGN.md section 6
+        max_connection_age: if with_signal && server_window.is_none() && rng.chance(1, 3) { Some(Duration::from_millis(*rng.pick(&[3u64, 10, 25, 60]))) } else { None },
     }
 }
 
 pub fn scenario_json(sc: &Scenario) -> serde_json::Value {
     json!({"conns": sc.conns, "signal": format!("{:?}", sc.signal), "keep_clients": sc.keep_clients, "pipe": format!("{:?}", sc.pipe_cfg),
-        "server_window": sc.server_window, "client_window": sc.client_window, "server_timeout_ms": sc.server_timeout.map(|d| d.as_millis() as u64),
+        "server_window": sc.server_window, "client_window": sc.client_window, "server_timeout_ms": sc.server_timeout.map(|d| d.as_millis() as u64), "max_connection_age_ms": sc.max_connection_age.map(|d| d.as_millis() as u64),
         "calls": sc.calls.iter().map(|c| json!({"id": c.id, "conn": c.conn, "start_ms": c.start_ms, "shape": format!("{:?}", c.shape), "script": script_json(&c.script),
             "latency_ms": c.script.latency_ms, "gaps_ms": c.script.gaps_ms, "end_gap_ms": c.script.end_gap_ms})).collect::<Vec<_>>()})
 }
@@ -376,7 +386,7 @@ pub fn scenario_json(sc: &Scenario) -> serde_json::Value {
 pub fn run(cfg: &RunCfg) -> Ctx {
     let mut all = Ctx::new();
     all.merge(par_cases(cfg, "shutdown", cfg.n(1200, 16 * 2500), || (), |_, rng, ctx, _| case(rng, ctx)));
-    for k in ["phase.pre-headers", "phase.mid-stream", "phase.done", "phase.not-started", "scen.no_call_in_flight", "scen.post_signal_call", "scen.signal_with_accept", "scen.kept_idle_clients", "scen.server_timeout_configured", "observed.accepted_calls_completed"] {
+    for k in ["phase.pre-headers", "phase.mid-stream", "phase.done", "phase.not-started", "scen.no_call_in_flight", "scen.post_signal_call", "scen.signal_with_accept", "scen.kept_idle_clients", "scen.server_timeout_configured", "scen.max_connection_age_configured", "observed.accepted_calls_completed"] {
         all.floor(k, 3);
     }
     all
@@ -484,6 +494,9 @@ fn case(rng: &mut Rng, ctx: &mut Ctx) {
     }
     if sc.keep_clients {
         ctx.count("scen.kept_idle_clients");
+    }
+    if sc.max_connection_age.is_some() {
+        ctx.count("scen.max_connection_age_configured");
     }
     if sc.server_timeout.is_some() {
         ctx.count("scen.server_timeout_configured");
